@@ -95,6 +95,47 @@ def stub(self, country_data, scenario_option, create_pptx_with_all_countries, sh
     return (f, "stubbed scenario", FakeResults(code))
 
 
+class FakeLoader:
+    scenario_description = "stubbed scenario"
+
+
+def fake_set_depending_on_option(self, scenario_option, country_data=None):
+    return ({}, {}, FakeLoader())
+
+
+class FakeScenarioRunner:
+    """deep stub: replaces the ScenarioRunner that run_optimizer_for_country instantiates, so that the REAL
+    run_optimizer_for_country (its try/except flag, the /100, what it returns) is executed"""
+
+    def run_and_analyze_scenario(self, constants_for_params, time_consts_for_params, scenario_loader,
+                                 create_pptx_with_all_countries, show_country_figures, figure_save_postfix, country_data,
+                                 save_all_results, country_name, country_iso3, title="Untitled"):
+        code = country_data["iso3"]
+        STATE["calls"].append(code)
+        if code == STATE.get("raise_for"):
+            raise RuntimeError("stubbed optimisation failure for " + code)
+        f = STATE["fracs"].get(code, STATE["default"])
+        r = FakeResults(code)
+        r.percent_people_fed = float("nan") if f == "nan" else float(f) * 100
+        return r
+
+
+REAL_SCENARIO_RUNNER = M.ScenarioRunner
+
+
+def install(deep):
+    cls = M.ScenarioRunnerNoTrade
+    if deep:
+        cls.run_optimizer_for_country = ORIG_RUN_OPT
+        cls.set_depending_on_option = fake_set_depending_on_option
+        M.ScenarioRunner = FakeScenarioRunner
+    else:
+        cls.run_optimizer_for_country = stub
+        if "set_depending_on_option" in cls.__dict__:
+            del cls.set_depending_on_option
+        M.ScenarioRunner = REAL_SCENARIO_RUNNER
+
+
 def num(x):
     x = float(x)
     return "nan" if math.isnan(x) else x
@@ -110,6 +151,8 @@ def run_case(case):
     STATE["fracs"] = case.get("fracs", {})
     STATE["default"] = case.get("default", 0.0)
     STATE["calls"] = []
+    STATE["raise_for"] = case.get("raise_for")
+    install(bool(case.get("deep")))
     if not case.get("reuse") or RUNNER["obj"] is None:
         RUNNER["obj"] = M.ScenarioRunnerNoTrade()
     runner = RUNNER["obj"]
@@ -191,7 +234,6 @@ def run(payload):
     real = [run_real(c) for c in payload.get("real", [])]
     M.pd = Proxy(pd, read_csv=read_csv)
     M.gpd = Proxy(REAL_GPD, read_file=read_file)
-    M.ScenarioRunnerNoTrade.run_optimizer_for_country = stub
     res = [run_case(c) for c in payload["cases"]]
     # the population column as the implementation reads it (for the audit)
     t = REAL_READ_CSV(M.Path(M.repo_root) / "data" / "no_food_trade" / "computer_readable_combined.csv")
